@@ -266,7 +266,7 @@ def _run_one(name, spec, krepo, tier):
     t0 = time.time()
     pkg = spec.get('package', 'fastrace')
     feats = spec.get('features', 'enable')
-    cmd = ['cargo', 'kani', '-p', pkg, '-Z', 'function-contracts', '-Z', 'stubbing', '--harness', spec['harness'], '--output-format', 'terse']
+    cmd = ['cargo', 'kani', '-p', pkg, '-Z', 'function-contracts', '-Z', 'stubbing', '--harness', spec['harness'], '--exact', '--output-format', 'terse']
     if feats:
         cmd += ['--features', feats]
     cmd += spec.get('args', [])
